@@ -7,7 +7,8 @@ by the property modules:  H1,H2 -> C03/C12   H3 -> C13/C06   H4 -> C06/C20   H5 
 
 
 class Monitor(object):
-    def __init__(self, supplied=(), dup_demand=False, const=3):
+    def __init__(self, supplied=(), dup_demand=False, const=3, lenient=()):
+        self.lenient = set(lenient)         # inputs a [DEFAULT] section may provide: supplied-ness depends on which sections exist
         self.supplied = set(supplied)      # inputs present in the file when the run started
         self.dup = dup_demand              # the same line may legitimately be queued twice
         self.const = const
@@ -49,10 +50,10 @@ class Monitor(object):
             _, line, q, out = ev
             if out[0] == 'missing':
                 self.missing_reads.setdefault(out[1], set()).add(line)
-                if out[1] in self.supplied or out[1] in self.answered:
+                if (out[1] in self.supplied or out[1] in self.answered) and out[1] not in self.lenient:
                     self.bad('H6', f'{line} read {out[1]}: reported missing although it was supplied')
             elif out[0] == 'ok':
-                if q not in self.supplied and q not in self.answered:
+                if q not in self.supplied and q not in self.answered and q not in self.lenient:
                     self.bad('H6', f'{line} read {q} and got {out[1]} although it was never supplied')
         elif k == 'A':
             line = ev[1]
@@ -86,7 +87,7 @@ class Monitor(object):
                 self.bad('H4', f'prompt for {x} after the user refused to answer')
             if x in self.prompted:
                 self.bad('H3a', f'{x} asked for more than once')
-            if x in self.supplied or x in self.answered:
+            if (x in self.supplied or x in self.answered) and x not in self.lenient:
                 self.bad('H3b', f'{x} asked for although it was already supplied')
             readers = self.missing_reads.get(x, set())
             if not readers:
